@@ -530,4 +530,37 @@ func runC36(p *core.Prog, r *core.Report) {
 			}
 			return "", false
 		}})
+	// ---------------- R6 'the current alphabet' is the committee as fetched now
+	r6 := r.Rule("C36.R6", "the list newAlphabetList merges into (and the 'before' list of updateInnerRing) is the result of the Committee() call made in this very run of processAlphabetSync: not a list remembered from an earlier run (the one-third bound is relative to the CURRENT committee; stepping from a remembered, already voted list doubles the number of replaced keys per round)", 2)
+	isCommitteeNow := func(v ssa.Value) bool {
+		ex, ok := v.(*ssa.Extract)
+		if !ok || ex.Index != 0 {
+			return false
+		}
+		c, ok := ex.Tuple.(ssa.CallInstruction)
+		if !ok {
+			return false
+		}
+		if c.Common().IsInvoke() {
+			return c.Common().Method.Name() == "Committee"
+		}
+		return strings.HasSuffix(core.CalleeName(c), ").Committee")
+	}
+	nCur := 0
+	for _, cs := range core.CallSites([]*ssa.Function{pfn}, func(s core.Site) bool {
+		return s.Name == "pkg/innerring/processors/governance.newAlphabetList" || s.Name == "pkg/innerring/processors/governance.updateInnerRing"
+	}) {
+		nCur++
+		idx := 0
+		if strings.HasSuffix(cs.Name, "updateInnerRing") {
+			idx = 1
+		}
+		a := cs.Call.Common().Args[idx]
+		r6.Check(isCommitteeNow(a), core.FuncName(pfn)+"#current-alphabet@"+cs.Name[strings.LastIndex(cs.Name, ".")+1:], p.InstrPos(cs.Call), "the committee fetched in this run",
+			"the 'current alphabet' given to "+cs.Name[strings.LastIndex(cs.Name, ".")+1:]+" is not (only) the committee fetched in this run ("+a.String()+"): when the sync is repeated before the chain reflects the previous vote, the next list is built from the previous proposal and differs from the real committee by more than the allowed third")
+	}
+	if nCur < 2 {
+		r.Fatalf("C36.R6: expected newAlphabetList and updateInnerRing calls in processAlphabetSync, found %d", nCur)
+	}
+	r.Explain += " (R6) both places of processAlphabetSync that need 'the current alphabet' get the value returned by Committee() in the same run, directly (no merge with a remembered list)."
 }
